@@ -213,7 +213,8 @@ _CACHE = {}
 
 def classify(repo, module, fn, param, stack=()):
     """Set of Res for the values ``fn`` may return, relative to its parameter ``param``."""
-    key = (id(repo), module.relpath, fn.name, fn.lineno, param)
+    _CACHE = repo.__dict__.setdefault("_passthru_cache", {})  # per Repo object (ids of collected repos are reused)
+    key = (module.relpath, fn.name, fn.lineno, param)
     if key in _CACHE:
         return _CACHE[key]
     an = _An(repo, module, fn, param, stack or ((module.relpath, fn.name, param),))
